@@ -326,12 +326,13 @@ def run(prog, rep, tier, repo):
         else:
             g = f.guards()
             bad = []
+            unrec = []
             for c in swaps:
                 loops = [li for li in f.enclosing_loops(c.bb) if li['item'] is not None]
                 obj, i, j = c.args[0], c.args[1], c.args[2]
                 pos = [li for li in loops if li['item'] == i]
                 if not pos:
-                    bad.append('swap first index %s is not the position loop counter' % show(i)[:60])
+                    unrec.append('swap first index %s is not a for-loop position counter' % show(i)[:60])
                     continue
                 L = pos[0]
                 home = tag(j) == 'cast' and tag(j[2]) == 'index' and j[2][1] == obj and j[2][2] == i
@@ -360,8 +361,12 @@ def run(prog, rep, tier, repo):
                             [li['header'] for li in f.enclosing_loops(c.bb)] != [li['header'] for li in f.enclosing_loops(s_.bb)] or \
                             not (tag(s_.value[3]) == 'const' and s_.value[3][2] == 1):
                         bad.append('counter increment %s is not one-per-swap' % show(s_.value)[:60])
-            (rep.viol if bad else rep.ok)('parity', key, '; '.join(bad) if bad else
-                                          'swap-sort: swap(i, perm[i]) repeated until perm[i] == i, one count per swap', site_of(f.body))
+            if unrec:
+                rep.undecided('parity', key, 'swap-sort idiom not read: %s' % '; '.join(unrec), site_of(f.body), proof=False)
+            elif bad:
+                rep.viol('parity', key, '; '.join(bad), site_of(f.body))
+            else:
+                rep.ok('parity', key, 'swap-sort: swap(i, perm[i]) repeated until perm[i] == i, one count per swap')
     rep.floor('parity', 1, 'ipiv_parity')
 
     # ------------------------------------------------------------------ D8 tolerance of the Cholesky precondition
